@@ -364,6 +364,7 @@ META["C04"] = {
     "yields well-formed nodes, nested generators flatten; enum members are not covered.",
     "technique": "sidecar contracts on _rewrite_captured_vars (is_arg, visit_Lambda, the comprehension visitors, class dispatch) and check_ast discharged with z3 (visitor hypothesis, list lemmas); by-value clause by bounded contract check on generated source modules, oracle = the callable itself at call time (labelled stand-in)",
     "p_keys": True,
+    "p_timeout": 600,
     "explanation": "scoping discipline and the refusal proved; replacement values bounded",
     "assumptions": ["one post-call history (everything rebound/deleted/mutated)",
                     "_parse_source_for_lambda, _resolve_helper: assumed contracts (result shape, ignore stack untouched)"],
@@ -414,6 +415,7 @@ META["C06"] = {
     "(the library deliberately tolerates partial argument lists: known finding of C01).",
     "technique": "sidecar contracts on resolve_generator / visit_ListComp / visit_GeneratorExp / visit_Call / convert_call_to_dict / resolve_syntatic_sugar (loop invariants, visitor induction, list lemmas) discharged with z3; semantic reading by bounded contract check against CPython, record binding cross-checked against inspect.Signature.bind",
     "p_keys": True,
+    "p_timeout": 600,
     "explanation": "comprehension and record-constructor lowering proved structurally; semantic reading bounded",
     "assumptions": ["inspect.signature / _fields / is_dataclass library models",
                     "comprehension / class-model corpus of the bounded part as stated"],
